@@ -557,22 +557,28 @@ int main(int argc, char **argv)
   std::vector<rational> upts = {rational(1), rational(1, 2)};
   if (th)
     upts.push_back(rational(2));
-  for (size_t pi = 0; pi < PLANS.size(); ++pi)
-    for (auto &u : upts)
-    {
-      if (deadline && vf::now_ms() > deadline)
+  // deviation bounds are completed in increasing order: every plan at the base bound first, then (thorough) one more
+  // deviation for as long as the deadline allows
+  std::vector<int> bounds = {(int)args.num("bound", th ? 4 : 3)};
+  if (th && !args.has("bound"))
+    bounds.push_back(5);
+  for (int bound : bounds)
+    for (size_t pi = 0; pi < PLANS.size(); ++pi)
+      for (auto &u : upts)
       {
-        exhaustive = false;
-        break;
+        if (deadline && vf::now_ms() > deadline)
+        {
+          exhaustive = false;
+          break;
+        }
+        g_plan = (int)pi;
+        g_upt = u;
+        g_bound = bound;
+        uint64_t before = vf::st().sink.counters["executions"];
+        vf::RunResult rr = vf::run_units(UNITS, run_unit, opt);
+        exhaustive = exhaustive && rr.exhaustive;
+        levels += std::string(levels.size() > 1 ? "," : "") + "{\"plan\":\"" + PLANS[pi].name + "\",\"units_per_tick\":\"" + to_string(u) + "\",\"deviation_bound\":" + std::to_string(g_bound) + ",\"executions\":" + std::to_string(vf::st().sink.counters["executions"] - before) + ",\"complete\":" + (rr.exhaustive ? "true" : "false") + "}";
       }
-      g_plan = (int)pi;
-      g_upt = u;
-      g_bound = (int)args.num("bound", th ? 4 : 3);
-      uint64_t before = vf::st().sink.counters["executions"];
-      vf::RunResult rr = vf::run_units(UNITS, run_unit, opt);
-      exhaustive = exhaustive && rr.exhaustive;
-      levels += std::string(levels.size() > 1 ? "," : "") + "{\"plan\":\"" + PLANS[pi].name + "\",\"units_per_tick\":\"" + to_string(u) + "\",\"deviation_bound\":" + std::to_string(g_bound) + ",\"executions\":" + std::to_string(vf::st().sink.counters["executions"] - before) + ",\"complete\":" + (rr.exhaustive ? "true" : "false") + "}";
-    }
   levels += "]";
   std::map<std::string, std::string> extra;
   extra["wall_ms"] = std::to_string(vf::now_ms() - t0);
